@@ -16,6 +16,17 @@ LX == {"l", "01", ""}
 LG == {"en", "en-GB"}
 NSN == {"ex", ""}
 NoFaults == {}
+NoOverride == <<>>
+TinyKinds == <<{"iri"}, {"iri"}, {"bn"}, {"dg", "iri"}>>
+TinyKindsO == <<{"iri", "bn"}, {"iri"}, {"iri", "bn", "lit"}, {"dg", "iri", "bn"}>>
+SN2 == {"x", "y"}
+SP1 == {"a/"}
+SD1 == {"d:a"}
+BN1 == {"b"}
+LX1 == {"l"}
+NoLangs == {}
+Ids1 == {1}
+NS1 == {"ex"}
 NoStr == {}
 F1 == {"entry-id-beyond-size"}
 F2 == {"reference-beyond-size"}
